@@ -619,6 +619,58 @@ pub fn generate(seed: u64, prop_name: &str) -> PoolScenario {
         sk.extend(ops.drain(..).take(30));
         ops = sk;
     }
+    // C11 planted shapes (one run in eight each, streams of their own):
+    //  (a) "a committed entry with a referrer parent and a grandchild": P references cell X as dep, T
+    //      spends X (P becomes T's parent), C spends T, G spends C; another miner commits T alone: G's
+    //      ancestor aggregates must lose P's weight too;
+    //  (b) "a returning transaction under a chain at the ancestor limit": B is mined, C <- G <- H are
+    //      pooled on top of it with H exactly at the limit (3); a quiet branch detaches B: B comes back
+    //      below C and H would have four ancestors.
+    if prop == "C11" && Rng::new(seed ^ 0xC11_5AA1).chance(1, 8) {
+        let mut rp = Rng::new(seed ^ 0xC11_5AA2);
+        let x = txs.len();
+        let (g0, g1) = (rp.idx(g), rp.idx(g));
+        let g1 = if g1 == g0 { (g0 + 1) % g } else { g1 };
+        txs.push(TxSpec { inputs: vec![InRef::G(g0)], outputs: 2, fee: 2_500, dep: None, salt: rp.below(1 << 30), hdep: None, since: None }); // X maker
+        txs.push(TxSpec { inputs: vec![InRef::G(g1)], outputs: 1, fee: 2_000 + rp.range(0, 900), dep: Some(InRef::T(x, 0)), salt: rp.below(1 << 30), hdep: None, since: None }); // P
+        txs.push(TxSpec { inputs: vec![InRef::T(x, 0)], outputs: 1, fee: 2_000 + rp.range(0, 900), dep: None, salt: rp.below(1 << 30), hdep: None, since: None }); // T
+        txs.push(TxSpec { inputs: vec![InRef::T(x + 2, 0)], outputs: 1, fee: 2_000 + rp.range(0, 900), dep: None, salt: rp.below(1 << 30), hdep: None, since: None }); // C
+        txs.push(TxSpec { inputs: vec![InRef::T(x + 3, 0)], outputs: 1, fee: 2_000 + rp.range(0, 900), dep: None, salt: rp.below(1 << 30), hdep: None, since: None }); // G
+        pool.max_ancestors = pool.max_ancestors.max(25);
+        pool.max_tx_pool_size = 180_000_000;
+        let mut sk = vec![POp::Submit { t: x, remote: false }, POp::Quiesce, POp::Foreign { t: x, seed: rp.below(1 << 40) }, POp::Quiesce];
+        for t in [x + 1, x + 2, x + 3, x + 4] {
+            sk.push(POp::Submit { t, remote: false });
+            sk.push(POp::Quiesce);
+        }
+        sk.push(POp::Foreign { t: x + 2, seed: rp.below(1 << 40) });
+        sk.push(POp::Quiesce);
+        sk.extend(ops.drain(..).take(40));
+        ops = sk;
+    } else if prop == "C11" && Rng::new(seed ^ 0xC11_5AB1).chance(1, 8) {
+        let mut rp = Rng::new(seed ^ 0xC11_5AB2);
+        let b = txs.len();
+        txs.push(TxSpec { inputs: vec![InRef::G(rp.idx(g))], outputs: 1, fee: 3_000, dep: None, salt: rp.below(1 << 30), hdep: None, since: None });
+        for k in 0..3 {
+            txs.push(TxSpec { inputs: vec![InRef::T(b + k, 0)], outputs: 1, fee: 2_000 + rp.range(0, 900), dep: None, salt: rp.below(1 << 30), hdep: None, since: None });
+        }
+        pool.max_ancestors = 3;
+        pool.max_tx_pool_size = 180_000_000;
+        let mines = cfg.w_close + 2;
+        let mut sk = vec![POp::Submit { t: b, remote: false }, POp::Quiesce];
+        for _ in 0..mines {
+            sk.push(POp::Mine);
+            sk.push(POp::Quiesce);
+        }
+        for k in 1..=3 {
+            sk.push(POp::Submit { t: b + k, remote: false });
+            sk.push(POp::Quiesce);
+        }
+        sk.push(POp::Fork { back: mines, len: 1, seed: rp.below(1 << 40), quiet: true });
+        sk.push(POp::Quiesce);
+        sk.extend(ops.drain(..).take(40));
+        ops = sk;
+    }
     if timelock_shape {
         // chain A: the genesis epoch mined quickly, one slow block ends it (A's next epoch gets half the
         // difficulty), a few blocks into epoch 1; transaction 0, locked until the earliest position the
@@ -2781,7 +2833,9 @@ impl PoolExec {
                     for dp in tx.cell_deps().into_iter() {
                         let is_group: u8 = dp.dep_type().into();
                         match st.cells.get(&dp.out_point()) {
-                            Some(c) if is_group == 0 && !(c.is_cellbase() && c.block_number > 0) => {}
+                            // a cell that a pooled or another returning transaction spends is dead for whoever
+                            // arrives later, referrers included (the pool's own rule): not plainly admissible
+                            Some(c) if is_group == 0 && !(c.is_cellbase() && c.block_number > 0) && !claims.contains_key(&dp.out_point()) => {}
                             _ => ok = false,
                         }
                     }
